@@ -81,7 +81,19 @@ fn main() {
                 strata: arg(&args, "--strata").unwrap_or_else(|| ALL_STRATA.into()).split(',').filter(|s| !s.is_empty()).map(String::from).collect(),
                 max_minimise: arg(&args, "--max-minimise").and_then(|s| s.parse().ok()).unwrap_or(3),
                 run_timeout_s: arg(&args, "--run-timeout").and_then(|s| s.parse().ok()).unwrap_or(60),
+                solo_table: arg(&args, "--solo-table"),
             })
+        }
+        "solo-slice" => {
+            init_sim();
+            child::slice_main(
+                &arg(&args, "--workload").unwrap_or_else(|| format!("{verif_dir}/workload")),
+                arg(&args, "--seed").and_then(|s| s.parse().ok()).unwrap_or(1),
+                arg(&args, "--index").and_then(|s| s.parse().ok()).unwrap_or(0),
+                arg(&args, "--of").and_then(|s| s.parse().ok()).unwrap_or(1),
+                &arg(&args, "--out").expect("--out"),
+                Duration::from_secs(arg(&args, "--run-timeout").and_then(|s| s.parse().ok()).unwrap_or(60)),
+            )
         }
         "mkreplay" => {
             init_sim();
